@@ -117,7 +117,7 @@ prop("C04", "fault_enumeration",
      "ancestors; (3) metamorphic: succeeding Aspects / nothing bound == join points off. Non-trivial = a tree with >= 2 "
      "firing positions or a value-carrying frame that failed while its caller continued with a later effect. Trees also contain creations whose init code ends in a rejected deposit (0xEF code, oversize code, deposit gas) and value-carrying, mostly failing calls to standard precompiles.",
      [{"test": "TestC04", "quick": {"checks": 250, "shards": 4, "timeout": 900},
-       "thorough": {"checks": 600, "shards": 16, "timeout": 7200}}])
+       "thorough": {"checks": 400, "shards": 16, "timeout": 7200}}])
 
 prop("C06", "exploration",
      "cases = scripted call trees (budget 6, 35% of calls with small fixed gas so that Aspects can exhaust it) x real WASM "
